@@ -434,26 +434,48 @@ fn assign_thunk_blocks(
     // object might put something out-of-range, we switch modes.
     let mut prev_block_id = ThunkBlockId::FIRST;
     let mut prev_block_pos = first_end;
-    // Tracks an unplaced "next" block: (block_id, first_file_id_using_it, first_object_start).
-    let mut pending_next: Option<(ThunkBlockId, FileId, u64)> = None;
+    // Tracks an unplaced "next" block: (block_id, first_file_id_using_it, first_object_start,
+    // last_file_id_using_it, last_object_end).
+    let mut pending_next: Option<(ThunkBlockId, FileId, u64, FileId, u64)> = None;
 
     for (file_id, start, end) in iter {
-        if let Some((next_id, first_file_id, first_object_start)) = pending_next {
-            if end - first_object_start >= max_branch_range {
+        if let Some((next_id, first_file_id, first_object_start, last_file_id, last_end)) =
+            pending_next
+        {
+            let span = end - first_object_start;
+            if span >= max_branch_range + MAXIMUM_THUNK_BYTES_PER_BLOCK {
+                // This object is so large that a block at its end would be out of reach of the
+                // first object using the block. Place the block at the end of the previous object
+                // instead (the last one that is within range of `first_object_start`), then handle
+                // this object relative to the newly placed block below.
+                if last_file_id == first_file_id {
+                    assign(first_file_id, next_id, true);
+                } else {
+                    assign(first_file_id, next_id, false);
+                    assign(last_file_id, next_id, true);
+                }
+                prev_block_id = next_id;
+                prev_block_pos = last_end;
+                pending_next = None;
+            } else if span >= max_branch_range {
                 // Block is placed on this object: it becomes the owner and switches to "previous".
                 assign(first_file_id, next_id, false);
                 assign(file_id, next_id, true);
                 prev_block_id = next_id;
                 prev_block_pos = end;
                 pending_next = None;
+                continue;
             } else {
                 assign(file_id, next_id, false);
-                pending_next = Some((next_id, first_file_id, first_object_start));
+                pending_next = Some((next_id, first_file_id, first_object_start, file_id, end));
+                continue;
             }
-        } else if end - prev_block_pos >= max_branch_range {
+        }
+
+        if end - prev_block_pos >= max_branch_range {
             let next_id = ThunkBlockId(num_blocks as u32);
             num_blocks += 1;
-            pending_next = Some((next_id, file_id, start));
+            pending_next = Some((next_id, file_id, start, file_id, end));
         } else {
             assign(file_id, prev_block_id, false);
         }
@@ -461,7 +483,7 @@ fn assign_thunk_blocks(
 
     // If the loop ended with a pending next block that never needed splitting, the first object
     // using it becomes the owner (block is effectively at the start of this group).
-    if let Some((next_id, first_file_id, _)) = pending_next {
+    if let Some((next_id, first_file_id, ..)) = pending_next {
         assign(first_file_id, next_id, true);
     }
 
